@@ -259,6 +259,18 @@ func (c *Conn) Handshake(ctx context.Context, endpoint string) error {
 		if ack.Version != 0 {
 			return errors.Errorf("uacp: invalid version %d", ack.Version)
 		}
+		// The buffer sizes of the Acknowledge become the sizes of this
+		// connection: a value below the protocol minimum (OPC UA Part 6,
+		// 7.1.2.4) cannot even hold a message header.
+		if ack.ReceiveBufSize < minBufSize || ack.SendBufSize < minBufSize {
+			c.SendError(ua.StatusBadTCPInternalError)
+			return errors.Errorf("uacp: invalid buffer sizes in ACK: receive=%d send=%d, minimum is %d", ack.ReceiveBufSize, ack.SendBufSize, minBufSize)
+		}
+		// Receive allocates ReceiveBufSize bytes per message: never more
+		// than the receive buffer announced in our Hello.
+		if hel.ReceiveBufSize != 0 && ack.ReceiveBufSize > hel.ReceiveBufSize {
+			ack.ReceiveBufSize = hel.ReceiveBufSize
+		}
 		if ack.MaxChunkCount == 0 {
 			ack.MaxChunkCount = DefaultMaxChunkCount
 			debug.Printf("uacp %d: server has no chunk limit. Using %d", c.id, ack.MaxChunkCount)
@@ -352,6 +364,10 @@ func (c *Conn) srvhandshake(endpoint string) error {
 
 // hdrlen is the size of the uacp header
 const hdrlen = 8
+
+// minBufSize is the smallest send and receive buffer size
+// the protocol allows (OPC UA Part 6, 7.1.2.3 and 7.1.2.4).
+const minBufSize = 8192
 
 // Receive reads a full UACP message from the underlying connection.
 // The size of b must be at least ReceiveBufSize. Otherwise,
